@@ -70,10 +70,20 @@ func (g *tgen) gen(d int, name string) *types.Type {
 		return ObjT([]string{"a"}, []*types.Type{g.gen(d-1, name+".a")})
 	case 5:
 		a, b := g.gen(d-1, name+".a"), g.gen(d-1, name+".b")
-		if sv.Choice(name+".order", 2) == 0 {
+		// two fields: the names {a,b} in both orders, and name sets that
+		// differ from it in one name, in both positions
+		switch sv.Choice(name+".order", 5) {
+		case 0:
 			return ObjT([]string{"a", "b"}, []*types.Type{a, b})
+		case 1:
+			return ObjT([]string{"b", "a"}, []*types.Type{b, a})
+		case 2:
+			return ObjT([]string{"a", "c"}, []*types.Type{a, b})
+		case 3:
+			return ObjT([]string{"c", "a"}, []*types.Type{b, a})
+		default:
+			return ObjT([]string{"c", "b"}, []*types.Type{a, b})
 		}
-		return ObjT([]string{"b", "a"}, []*types.Type{b, a})
 	default:
 		return types.Fun("f", []*types.Type{g.gen(d-1, name+".p")}, g.gen(d-1, name+".r"))
 	}
@@ -223,8 +233,15 @@ func H17_equals() {
 // H17_trans: transitivity on triples (depth 1).
 func H17_trans() {
 	g := &tgen{va: types.TyVar("a"), vb: types.TyVar("b"), vars: false}
-	s, t, u := g.gen(1, "s"), g.gen(1, "t"), g.gen(1, "u")
-	if types.Equals(s, t) && types.Equals(t, u) {
+	s, t := g.gen(1, "s"), g.gen(1, "t")
+	if !types.Equals(s, t) {
+		// every (s, t) pair is visited; the third type is only enumerated
+		// behind a pair that Equals relates
+		sv.Reach("unrelated-pair")
+		return
+	}
+	u := g.gen(1, "u")
+	if types.Equals(t, u) {
 		sv.Reach("chain")
 		sv.Assert("transitive", types.Equals(s, u))
 	}
@@ -268,4 +285,68 @@ func H17_bottom() {
 	sv.Assert("bottom-equals-only-bottom", !types.Equals(types.Bottom, t) && !types.Equals(t, types.Bottom) && types.Equals(types.Bottom, types.Bottom))
 	sv.Assert("list-of-bottom-is-not-list-of-t", !types.Equals(types.List(types.Bottom), types.List(t)))
 	sv.Reach("compared")
+}
+
+// slot: a leaf or one constructor over a leaf, leaves from {num, a, b}
+func (g *tgen) slot(name string) *types.Type {
+	leaf := func(k int) *types.Type {
+		switch k {
+		case 0:
+			return types.Num
+		case 1:
+			return g.va
+		default:
+			return g.vb
+		}
+	}
+	k := sv.Choice(name, 9)
+	l := leaf(k % 3)
+	switch k / 3 {
+	case 0:
+		return l
+	case 1:
+		return types.List(l)
+	default:
+		return types.Maybe(l)
+	}
+}
+
+// H17_alias: two-slot types (object fields, map key/value, a function's
+// parameter and result) whose slots are a variable, a constant or one
+// constructor over them. This is where a variable first aliased to another
+// one meets a constructor containing it later in the traversal - f(X, g(X))
+// against f(Y, Y) - so the occurs check has to look through the bindings
+// made so far.
+func H17_alias() {
+	g := &tgen{va: types.TyVar("a"), vb: types.TyVar("b"), vars: true}
+	kind := sv.Choice("kind", 4)
+	mk := func(name string) *types.Type {
+		x, y := g.slot(name+".1"), g.slot(name+".2")
+		switch kind {
+		case 0:
+			return ObjT([]string{"a", "b"}, []*types.Type{x, y})
+		case 1:
+			return types.Fun("f", []*types.Type{x}, y)
+		case 2:
+			return types.Fun("f", []*types.Type{x, y}, types.Num)
+		default:
+			return types.List(ObjT([]string{"p", "q"}, []*types.Type{x, y}))
+		}
+	}
+	s, t := mk("s"), mk("t")
+	m := map[string]*types.Type{}
+	var u *types.Type
+	cls := sv.Outcome(func() { u = types.Unify(s, t, m) })
+	sv.Assert("unify-does-not-fail-internally", cls == "ok")
+	if cls != "ok" || u == nil {
+		sv.Reach("not-unified")
+		return
+	}
+	sv.Reach("unified")
+	for name, img := range m {
+		sv.Assert("no-variable-bound-to-a-type-containing-it", !refOccurs(name, refApply(img, m, 8)) || (img.Kind == types.KTyVar && img.TyVar().Name == name))
+	}
+	sa, ta := refApply(s, m, 8), refApply(t, m, 8)
+	sv.Assert("substitution-makes-both-sides-equal", RefTypeEq(sa, ta))
+	sv.Assert("result-is-the-common-instance", RefTypeEq(refApply(u, m, 8), sa))
 }
